@@ -4,9 +4,10 @@ import . "vh/vhlib"
 
 func main() {
 	Main(map[string]CmdFn{
-		"gen":    func(a []string) int { return RunGen(gens, a) },
-		"c18":    c18,
-		"c07":    c07,
-		"c08":    c08,
+		"gen": func(a []string) int { return RunGen(gens, a) },
+		"c18": c18,
+		"c07": c07,
+		"c08": c08,
+		"c02": c02,
 	})
 }
